@@ -5,7 +5,7 @@
 d="$1"; name=$(basename "$d"); wt="/tmp/fs_${name}_$$"
 flock /tmp/.wt.lock git -C /repo worktree add -q --detach "$wt" HEAD || { echo "$name: worktree add failed"; exit 2; }
 cd "$wt" && git apply "$d/patch.diff" || { echo "PATCH-FAIL" > "$d/.suite.txt"; git -C /repo worktree remove --force "$wt"; exit 1; }
-PYTHONPATH="$wt" /venv/bin/python -m pytest -ra -q -p no:cacheprovider --timeout=900 --continue-on-collection-errors --junitxml="$wt/junit.xml" > "$wt/pytest.log" 2>&1
+OMP_NUM_THREADS=1 OPENBLAS_NUM_THREADS=1 MKL_NUM_THREADS=1 PYTHONPATH="$wt" /venv/bin/python -m pytest -ra -q -p no:cacheprovider --timeout=900 --continue-on-collection-errors --junitxml="$wt/junit.xml" > "$wt/pytest.log" 2>&1
 /venv/bin/python - "$wt/junit.xml" > "$d/.suite.txt" <<'PY'
 import sys, json, xml.etree.ElementTree as ET
 base = set(json.load(open('/root/.vp/BASELINE.json'))['stable_pass'])
